@@ -597,7 +597,7 @@ def cases():
 
         def interruption():
             kind = choice(["pause", "pause", "pause", "suspend", "suspend", "defer"])
-            inj = {"at_msg": draw(st.integers(0, 60)), "plus": draw(st.integers(0, 4)), "do": kind}
+            inj = {"at_msg": draw(st.integers(0, 40)), "plus": draw(st.integers(0, 4)), "do": kind}
             if kind == "suspend":
                 inj["release_after"] = choice([0.05, 0.4, 1.0])
                 if chance(0.4):
@@ -608,7 +608,7 @@ def cases():
 
         def put():
             return {
-                "at_msg": draw(st.integers(0, 60)),
+                "at_msg": draw(st.integers(0, 40)),
                 "plus": draw(st.integers(0, 3)),
                 "do": "put",
                 "sig": choice(["s1", "s2"]),
@@ -624,11 +624,11 @@ def cases():
             inj = []
             if i < 2 and chance(0.35):
                 ij = interruption()
-                ij["at_msg"] = draw(st.integers(0, 25))
+                ij["at_msg"] = draw(st.integers(0, 20))
                 inj.append(ij)
             if sigs and i < 2 and chance(0.4):
                 p = put()
-                p["at_msg"] = draw(st.integers(0, 25))
+                p["at_msg"] = draw(st.integers(0, 20))
                 inj.append(p)
             if inj:
                 s["inj"] = inj
